@@ -43,6 +43,10 @@ def fault_cases():
         "bad-regex": lambda: ({"g.json": json.dumps(GOOD)}, ["-m", "Root", "g.json", "--dkr", "(unclosed"]),
         "generator-exception-empty-label": lambda: ({"g.json": '[{"-": 1}]'}, ["-m", "Root", "g.json"]),
         "generator-exception-converters": lambda: ({"g.json": '[{"a": {"b": 1}, "-": 2}]'}, ["-m", "Root", "g.json", "-f", "attrs", "--strings-converters"]),
+        # a generator exception while the reference-path context is non-empty (nested layout, a child shared by two parents)
+        "generator-exception-nested-shared-child": lambda: ({"s.json": json.dumps([{"customer": {"address": {"zip": 1, "city": "x"}, "n": 1},
+                                                                                    "warehouse": {"address": {"zip": 2, "city": "y"}, "m": 2.5}}])},
+                                                            ["-m", "Order", "s.json", "-s", "nested", "-f", "pydantic", "--code-generator-kwargs", "max_literals=many"]),
         "bad-max-literals": lambda: ({"g.json": json.dumps(GOOD)}, ["-m", "Root", "g.json", "--max-strings-literals", "many"]),
         "unencodable-argv": lambda: ({"g.json": json.dumps(GOOD)}, ["-m", "Root", "g.json", "--preamble", "x = '\udcff'"]),
         # the un-encodable text reaches ONLY the header (argv is echoed there), not the module body
